@@ -1287,6 +1287,21 @@ func (f *FuncCFG) NodeSites(syms ...string) []site {
 			}
 			// the statement's own operator and direct symbols only: definitions of locals do not leak in
 			m := f.DirectMentions(n)
+			// ... except a local that stands for a constant expression (`mask := A | B; f &^= mask`): it is the
+			// constants' name in this function, nothing that was computed
+			if as, ok := n.(*ast.AssignStmt); ok {
+				for _, r := range as.Rhs {
+					if id, ok := ast.Unparen(r).(*ast.Ident); ok {
+						if def := resolveLocalOnce(f.Info, f.Body, id); def != ast.Expr(id) {
+							if tv, ok := f.Info.Types[def]; ok && tv.Value != nil {
+								for k := range f.DirectMentions(def) {
+									m[k] = true
+								}
+							}
+						}
+					}
+				}
+			}
 			all := true
 			for _, s := range syms {
 				if !m[s] {
